@@ -170,6 +170,9 @@ func genEvCase(rng *simrt.Rand, tier string, o evGenOpts) *Case {
 	}
 	sp.Garbage = o.Garbage && rng.Bool(0.6)
 	ncols := rng.Intn(3)
+	if sp.Kind == "session" && ncols == 0 {
+		ncols = 1 // the flush row needs a session key of its own
+	}
 	sp.KeyCols = []string{"k1", "k2"}[:ncols]
 	tuples := genKeyTuples(rng, ncols, o.Adversary && rng.Bool(0.5))
 	n := 4 + rng.Intn(o.MaxRows-3)
@@ -610,9 +613,25 @@ func checkTimeWindows(e *Env, sp *evSpec, l *evLedger, prop string) {
 				for _, id := range r.IDs {
 					have[id] = true
 				}
+				// signature of the first firing being overtaken by a late update: the later delivery is
+				// a subset of the earlier one and holds no late row, the earlier one does
+				lateIn := func(ids []string) int {
+					n := 0
+					for _, id := range ids {
+						if er := l.ByID[id]; er != nil && er.Late {
+							n++
+						}
+					}
+					return n
+				}
+				overtaken := containsAll(p.IDs, r.IDs) && lateIn(r.IDs) == 0 && lateIn(p.IDs) > 0
 				for _, id := range p.IDs {
 					if !have[id] {
-						e.Violate("C02/late-update-lost-row", sp.Kind, "re-delivery of window %s group %s lacks row %s of the previous delivery (prev %s, now %s)", r.WindowID, k.g, id, idList(p.IDs), idList(r.IDs))
+						if overtaken {
+							e.Violate("C02/first-firing-overtaken-by-late-update", sp.Kind, "window %s group %s: the late update %s was delivered before the first firing %s, which then replaced it", r.WindowID, k.g, idList(p.IDs), idList(r.IDs))
+						} else {
+							e.Violate("C02/late-update-lost-row", sp.Kind, "re-delivery of window %s group %s lacks row %s of the previous delivery (prev %s, now %s)", r.WindowID, k.g, id, idList(p.IDs), idList(r.IDs))
+						}
 					}
 				}
 				old := map[string]bool{}
